@@ -292,6 +292,10 @@ func (c *fnCtx) origins(e ast.Expr) orig {
 			if _, ok := x.X.(*ast.CompositeLit); ok {
 				o["fresh"] = true
 			}
+			if !c.shallow {
+				// through the pointer everything the pointed-to value can reach is reachable
+				o.addAll(c.origins(x.X))
+			}
 		}
 	case *ast.CompositeLit:
 		o["fresh"] = true
@@ -814,6 +818,44 @@ func (c *fnCtx) run() {
 			merge(c.locals, v, deepO)
 			merge(c.own, v, ownO)
 		}
+		// the local variable at the root of x.f, x[i], *x, &x, (x), x[a:b]
+		var rootLocal func(e ast.Expr) *ast.Ident
+		rootLocal = func(e ast.Expr) *ast.Ident {
+			switch x := e.(type) {
+			case *ast.Ident:
+				return x
+			case *ast.SelectorExpr:
+				if _, ok := c.a.info.Selections[x]; ok {
+					return rootLocal(x.X)
+				}
+			case *ast.IndexExpr:
+				return rootLocal(x.X)
+			case *ast.SliceExpr:
+				return rootLocal(x.X)
+			case *ast.StarExpr:
+				return rootLocal(x.X)
+			case *ast.ParenExpr:
+				return rootLocal(x.X)
+			case *ast.UnaryExpr:
+				if x.Op == token.AND {
+					return rootLocal(x.X)
+				}
+			}
+			return nil
+		}
+		// a value stored somewhere inside a local (an element, a field, through copy or a
+		// call): from then on the local reaches what the value reaches
+		absorb := func(dst ast.Expr, srcs ...ast.Expr) {
+			id := rootLocal(dst)
+			if id == nil || id.Name == "_" {
+				return
+			}
+			for _, src := range srcs {
+				if src != nil {
+					bind(id, c.deep(src), orig{})
+				}
+			}
+		}
 		c.walk(c.body, func(n ast.Node) {
 			switch s := n.(type) {
 			case *ast.AssignStmt:
@@ -821,6 +863,8 @@ func (c *fnCtx) run() {
 					for i, l := range s.Lhs {
 						if id, ok := l.(*ast.Ident); ok && id.Name != "_" {
 							bind(id, c.deep(s.Rhs[i]), c.memOf(s.Rhs[i]))
+						} else if !ok {
+							absorb(l, s.Rhs[i])
 						}
 					}
 				} else if len(s.Rhs) == 1 {
@@ -861,6 +905,23 @@ func (c *fnCtx) run() {
 					}
 				}
 			case *ast.CallExpr:
+				if c.builtinName(s) == "copy" && len(s.Args) == 2 {
+					absorb(s.Args[0], s.Args[1])
+				}
+				// a call may store any of its arguments in what its receiver or a pointer argument refers to
+				if c.builtinName(s) == "" && !c.isConversion(s) {
+					var all []ast.Expr
+					all = append(all, s.Args...)
+					if rx := c.recvExprOf(s); rx != nil {
+						all = append(all, rx)
+						absorb(rx, s.Args...)
+					}
+					for _, a := range s.Args {
+						if u, ok := a.(*ast.UnaryExpr); ok && u.Op == token.AND {
+							absorb(u.X, all...)
+						}
+					}
+				}
 				// parameters of a local closure take the origins of the arguments at its call sites
 				if id, ok := s.Fun.(*ast.Ident); ok {
 					if v, ok := c.a.info.Uses[id].(*types.Var); ok {
@@ -1075,14 +1136,17 @@ func (c *fnCtx) external(call *ast.CallExpr) {
 	}
 	if ws, ok := writingExternal[name]; ok {
 		for _, i := range ws {
+			// a library function with a known contract writes the memory its receiver or
+			// argument itself refers to (the builder's buffer, the slice's array), not what
+			// the elements stored there point to
 			if i == -1 {
 				if rx := c.recvExprOf(call); rx != nil {
 					o := c.locOrigins(rx)
-					o.addAll(c.origins(rx))
+					o.addAll(c.memOf(rx))
 					c.write(o, "external "+name, call)
 				}
 			} else if i < len(call.Args) {
-				c.write(c.origins(call.Args[i]), "external "+name, call)
+				c.write(c.memOf(call.Args[i]), "external "+name, call)
 			}
 		}
 		return
@@ -1118,9 +1182,9 @@ func (c *fnCtx) ifaceCall(call *ast.CallExpr, sel *ast.SelectorExpr, s *types.Se
 		if ws, ok := writingExternal[key]; ok {
 			for _, i := range ws {
 				if i == -1 {
-					c.write(c.origins(sel.X), "external "+key, call)
+					c.write(c.memOf(sel.X), "external "+key, call)
 				} else if i < len(call.Args) {
-					c.write(c.origins(call.Args[i]), "external "+key, call)
+					c.write(c.memOf(call.Args[i]), "external "+key, call)
 				}
 			}
 			return
